@@ -556,6 +556,26 @@ func transcript(e *env, g gen4, ops []Op, isDone func() bool) (out []string, pan
 				}()
 				out = append(out, fmt.Sprintf("cur after the panic -> %d", g.Current()))
 			}()
+			// what a further advance does with an iterator whose step panicked is not specified (the runtime re-runs the
+			// step, a coroutine is dead) - except that whatever comes out of it comes from GENERATOR code: a panic with a
+			// value no script raises (a runtime-internal complaint such as "already running") is foreign. Only the real
+			// runtime is advanced again; both transcripts record the verdict.
+			verdict := "re-advance after the panic -> ok"
+			if _, isModel := g.(*model); !isModel {
+				func() {
+					defer func() {
+						if r := recover(); r != nil {
+							switch r.(type) {
+							case scriptPanic, fuelOut, runtime.Error:
+							default:
+								verdict = fmt.Sprintf("re-advance after the panic -> FOREIGN PANIC %T %v", r, r)
+							}
+						}
+					}()
+					g.MoveNext()
+				}()
+			}
+			out = append(out, verdict)
 			return
 		}
 	}
